@@ -12,8 +12,11 @@ package query
 // every target within the limit is reported — does NOT hold: targets are marked done when first reached, so a
 // node first reached by a long path is not revisited by a shorter one and its descendants within the limit are
 // cut off; demonstrated in findings/C23 and recorded as a known finding.)
-//@ assume func printTarget
+//@ func printTarget
+//@   property C24
 //@   modifies nothing
+//@   opt nopanic=off
+//@   opt panics=allowed
 //@ assume func printTargetDot
 //@   modifies nothing
 //@ func deps
@@ -73,6 +76,8 @@ package query
 //@   invariant "range pkg.AllTargets()" consumers_reported [C24]: (forall k int :: 0 <= k && k < idx ==> \
 //@      (pkg.AllTargets()[k].HasAbsoluteSource(filename) ==> in(pkg.AllTargets()[k], changed))) && \
 //@      (forall t *core.BuildTarget :: old(in(t, changed)) ==> in(t, changed))
+//@   loopexit "range pkg.AllTargets()" every_consumer_in_the_owning_package_is_reported [C24]: forall k int :: 0 <= k && k < len(pkg.AllTargets()) ==> \
+//@      (pkg.AllTargets()[k].HasAbsoluteSource(filename) ==> in(pkg.AllTargets()[k], changed))
 //@   callsite FindRevdeps from_the_changed_set_to_the_given_depth [C24]: level != 0 && arg_depth == level && arg_targets == labels && arg_state == state
 
 // (somepath).somePath: the set of targets already explored is kept per DESTINATION (it records "no path from
